@@ -30,17 +30,17 @@ func vhRStr(k Keeper, i int) string {
 // account keeper stub: which addresses already have an account is the harness' choice
 type vhAccount struct{ pk cryptotypes.PubKey }
 
-func (a *vhAccount) Reset()                                  {}
-func (a *vhAccount) String() string                          { return "vhAccount" }
-func (a *vhAccount) ProtoMessage()                           {}
-func (a *vhAccount) GetAddress() sdk.AccAddress              { return nil }
-func (a *vhAccount) SetAddress(sdk.AccAddress) error         { return nil }
-func (a *vhAccount) GetPubKey() cryptotypes.PubKey           { return a.pk }
-func (a *vhAccount) SetPubKey(pk cryptotypes.PubKey) error   { a.pk = pk; return nil }
-func (a *vhAccount) GetAccountNumber() uint64                { return 0 }
-func (a *vhAccount) SetAccountNumber(uint64) error           { return nil }
-func (a *vhAccount) GetSequence() uint64                     { return 0 }
-func (a *vhAccount) SetSequence(uint64) error                { return nil }
+func (a *vhAccount) Reset()                                {}
+func (a *vhAccount) String() string                        { return "vhAccount" }
+func (a *vhAccount) ProtoMessage()                         {}
+func (a *vhAccount) GetAddress() sdk.AccAddress            { return nil }
+func (a *vhAccount) SetAddress(sdk.AccAddress) error       { return nil }
+func (a *vhAccount) GetPubKey() cryptotypes.PubKey         { return a.pk }
+func (a *vhAccount) SetPubKey(pk cryptotypes.PubKey) error { a.pk = pk; return nil }
+func (a *vhAccount) GetAccountNumber() uint64              { return 0 }
+func (a *vhAccount) SetAccountNumber(uint64) error         { return nil }
+func (a *vhAccount) GetSequence() uint64                   { return 0 }
+func (a *vhAccount) SetSequence(uint64) error              { return nil }
 
 type vhAccounts struct {
 	has     bool
@@ -48,8 +48,8 @@ type vhAccounts struct {
 }
 
 func (k *vhAccounts) GetAccount(context.Context, sdk.AccAddress) sdk.AccountI { return nil }
-func (k *vhAccounts) HasAccount(context.Context, sdk.AccAddress) bool          { return k.has }
-func (k *vhAccounts) SetAccount(context.Context, sdk.AccountI)                 { k.created++ }
+func (k *vhAccounts) HasAccount(context.Context, sdk.AccAddress) bool         { return k.has }
+func (k *vhAccounts) SetAccount(context.Context, sdk.AccountI)                { k.created++ }
 func (k *vhAccounts) NewAccountWithAddress(context.Context, sdk.AccAddress) sdk.AccountI {
 	return &vhAccount{}
 }
